@@ -76,7 +76,7 @@ static CaptureHandler g_log;
 // ================= (a) state copies =================
 static void runStates(const std::string &name, const vf::Args &a, vf::Report &rep)
 {
-    SpaceCfg c = makeSpace(name, a.thorough() ? 3 : 2);
+    SpaceCfg c = makeSpace(name, 3);
     auto &sp = c.space;
     Pool P(c);
     size_t n = P.st.size();
@@ -88,7 +88,7 @@ static void runStates(const std::string &name, const vf::Args &a, vf::Report &re
         const ob::State *s = P.st[i];
         Coords cs = c.lattice[i];
         // the target is initialised differently each time: every other lattice state (quick: 3 of them)
-        size_t step = a.thorough() ? 1 : std::max<size_t>(1, n / 3);
+        size_t step = a.thorough() ? 1 : std::max<size_t>(1, n / 12);
         for (size_t j = 0; j < n; j += step)
         {
             auto same = [&](const ob::State *x, const char *what) {
@@ -265,7 +265,7 @@ static void runStorage(const std::string &name, const vf::Args &a, vf::Report &r
     SpaceCfg c = makeSpace(name, 0);
     auto &sp = c.space;
     Pool P(c);
-    size_t n = std::min<size_t>(P.st.size(), a.thorough() ? 8 : 5);
+    size_t n = std::min<size_t>(P.st.size(), a.thorough() ? 10 : 7);
     // all multisets (as ordered lists, order is preserved by the format) of <= 3 states
     std::vector<std::vector<size_t>> lists{{}};
     for (size_t i = 0; i < n; ++i)
